@@ -31,7 +31,7 @@ RULE = ("(a) seeded nestings (depth <= 6, <= 40 nodes) of the three context mana
         "programs, programs with 1-3 planted faults (parse/compile/evaluation time), programs that crash the assembler (RecursionError while parsing "
         "and while evaluating, TypeError in the string-escape parser), assemblies interrupted by an exception injected at a random function call, "
         "assemblies cut by the real watchdog, and product chains ('x1 = x0*x0 / x2 = x1*x1 / ... / x0 = 1' valid, undefined, ring, overflow; plain or interrupted) that "
-        "leave many entries in try_compute.not_ready_yet, followed by a probe (valid, faulty, multi-file, product chain over the same names) compared with a fresh process; "
+        "leave many entries in try_compute.not_ready_yet, rings through such a chain (which fill and must empty the cycle memo of class Awaiting), also cut short and repeated, followed by a probe (valid, faulty, multi-file, product chain over the same names) compared with a fresh process; "
         "(c) every probe (incl. programs with groups of 2-5 equal-valued labels / constants under random names) under PYTHONHASHSEED 0..15 and a random seed, "
         "comparing outcome, base, bytes, diagnostics and the listing text; and the command line with --lst -o under the same seeds (also programs with 2-4 make_* "
         "directives of different formats on ONE file, spelt in ways that normalise to the same path: the last in source order must win), comparing every file written. non-trivial = distinct (history kinds, probe) with >= 1 non-valid item, "
@@ -89,6 +89,8 @@ def prog_term(p):
         return f"(PIfAwaiting {p[1]} {prog_term(p[2])} {prog_term(p[3])})"
     if k == "wait":
         return f"(PWait {p[1]} {prog_term(p[2])} {prog_term(p[3])})"
+    if k == "rem":
+        return f"(PRemember {p[1]} {prog_term(p[2])})"
     cm = p[1]
     if cm[0] == "try":
         c = "CTry"
@@ -123,6 +125,8 @@ def gen_prog(rng, depth, budget, hcount):
         return ("ifaw", rng.randrange(6), gen_prog(rng, depth - 1, budget, hcount), gen_prog(rng, depth - 1, budget, hcount))
     if r < 0.74:
         return ("wait", rng.randrange(6), gen_prog(rng, depth - 1, budget, hcount), gen_prog(rng, depth, budget, hcount))
+    if r < 0.80:
+        return ("rem", rng.randrange(6), gen_prog(rng, depth, budget, hcount))
     k = rng.random()
     if k < 0.35:
         cm = ("try",)
@@ -142,6 +146,8 @@ def run_nest(p, depth0, nids):
     impl.reset_global_state()
     deferred.try_compute.depth = depth0
     deferred.try_compute.not_ready_yet = {}          # the model starts from an empty record
+    deferred.Awaiting.known_cycles.clear()
+    del deferred.Awaiting.found_cycles_stack[:]
 
     class NestDeferred(deferred.BaseDeferred):       # the real BaseDeferred.wait, with the body of the nesting as _wait()
         def __init__(self, typ):
@@ -209,6 +215,9 @@ def run_nest(p, depth0, nids):
             defs[p[1]].body = p[2]
             defs[p[1]].wait()
             return run(p[3])
+        if k == "rem":
+            deferred.remember_cycle(defs[p[1]])
+            return run(p[2])
         with make_cm(p[1]):
             r = run(p[2])
             if r == "return":
@@ -243,9 +252,13 @@ def run_nest(p, depth0, nids):
            "handlers": [hid.get(id(x), 999) for x in reversed(reports.handle_reports.handlers_stack)],
            "flags": [bool(d.is_awaiting) for d in defs] + [False] * (nids - len(defs)),
            "latches": [bool(inst[i].is_error_condition) if i in inst else False for i in range(nids)],
-           "nry": [rid.get(id(x), 999) for x in reversed(list(deferred.try_compute.not_ready_yet.values()))]}
+           "nry": [rid.get(id(x), 999) for x in reversed(list(deferred.try_compute.not_ready_yet.values()))],
+           "kc": [rid.get(id(x), 999) for x in reversed(list(deferred.Awaiting.known_cycles.values()))],
+           "fcs": [[rid.get(k, 999) for k in l] for l in reversed(deferred.Awaiting.found_cycles_stack)]}
     impl.reset_global_state()
     deferred.try_compute.not_ready_yet = {}
+    deferred.Awaiting.known_cycles.clear()
+    del deferred.Awaiting.found_cycles_stack[:]
     return res
 
 
@@ -267,6 +280,9 @@ def nest_part(rep, rng, n):
               (("with", ("try",), ("call", ("with", ("try",), ("wait", 1, ("nr", ("end",)), ("end",)), ("end",)), ("wait", 1, ("raise", ("other", 2)), ("end",))), ("end",)), 0, 6),
               (("wait", 2, ("wait", 2, ("end",), ("end",)), ("end",)), 0, 6),
               (("wait", 3, ("nr", ("end",)), ("end",)), 1, 6),
+              (("wait", 1, ("rem", 2, ("wait", 2, ("raise", ("other", 4)), ("end",))), ("wait", 2, ("raise", ("other", 4)), ("end",))), 0, 6),
+              (("rem", 2, ("wait", 2, ("end",), ("end",))), 0, 6),
+              (("wait", 1, ("rem", 2, ("rem", 3, ("wait", 4, ("rem", 5, ("rem", 2, ("raise", "unrec"))), ("end",)))), ("end",)), 0, 6),
               (("with", ("await", 2), ("ifaw", 2, ("with", ("try",), ("raise", "cycle"), ("ret",)), ("raise", "assert")), ("end",)), 0, 6)]
     terms, obs = [], []
     b = lambda x: "true" if x else "false"
@@ -278,7 +294,8 @@ def nest_part(rep, rng, n):
         if o["outcome"] != "ONormal":
             rep.nontrivial(("nest", json.dumps(p), d0))
         terms.append(f"mk_nest {C.zlit(d0)}%Z {prog_term(p)}%N {C.nlist(range(nids))}%N ({o['outcome']})%N {C.zlit(o['depth'])}%Z {C.nlist(o['awaiting'])}%N "
-                     f"{C.nlist(o['handlers'])}%N [{'; '.join(b(x) for x in o['flags'])}] [{'; '.join(b(x) for x in o['latches'])}] {C.nlist(o['nry'])}%N")
+                     f"{C.nlist(o['handlers'])}%N [{'; '.join(b(x) for x in o['flags'])}] [{'; '.join(b(x) for x in o['latches'])}] {C.nlist(o['nry'])}%N {C.nlist(o['kc'])}%N "
+                     f"[{'; '.join(C.nlist(l) for l in o['fcs'])}]%N")
         obs.append(o)
     rep.sample({"nesting": cases[0][0], "start_depth": cases[0][1], "observed": obs[0]})
     codes = C.run_case_files(ID + "nest", REQ, "", C.shard(terms, 400), judge_expr="map judge_nest cases")
@@ -316,7 +333,12 @@ def leftover_now():
 
 def state_now():
     m = impl.load()
-    return [m["deferred"].try_compute.depth, len(m["deferred"].Awaiting.awaiting_stack), len(m["reports"].handle_reports.handlers_stack)]
+    aw = m["deferred"].Awaiting
+    return [m["deferred"].try_compute.depth, len(aw.awaiting_stack), len(m["reports"].handle_reports.handlers_stack),
+            len(aw.known_cycles), len(aw.found_cycles_stack)]
+
+
+ZERO = [0, 0, 0, 0, 0]      # depth, awaiting_stack, handlers_stack, known_cycles, found_cycles_stack: what the model predicts between runs
 
 
 def fp(v, depth):
@@ -406,7 +428,7 @@ def run_history(job):
             c = assemble_item({"files": it["files"], "fs": it.get("fs"), "inject": {"at": -1, "kind": "count"}})
             st = state_now()
             ce = {"kind": "count-run", "outcome": c["outcome"], "state": st}
-            if (c["outcome"] == "hang" or time.time() - tc >= 0.9 * 120) and st != [0, 0, 0]:        # only the real watchdog can cut a counting run (asynchronously)
+            if (c["outcome"] == "hang" or time.time() - tc >= 0.9 * 120) and st != ZERO:        # only the real watchdog can cut a counting run (asynchronously)
                 ce["async_dirty"] = True
                 impl.reset_global_state()
             log.append(ce)
@@ -429,7 +451,7 @@ def run_history(job):
         limit = item.get("watchdog") or (120 if it.get("inject") else impl.WATCHDOG_S)
         real_alarm = item.get("watchdog") or time.time() - t0 >= 0.9 * limit or \
             (oc == "hang" and isinstance(r, dict) and (r.get("crash") or {}).get("frame") not in (None, "?"))
-        if real_alarm and st != [0, 0, 0]:
+        if real_alarm and st != ZERO:
             # an asynchronous SIGALRM landed inside __enter__/__exit__: outside the model and the property; noted and repaired
             entry["async_dirty"] = True
             impl.reset_global_state()
@@ -513,7 +535,7 @@ def product_chain_variant(rng):
     if k == 2:
         return "invalid", product_chain(rng, x0=None)                       # x0 undefined
     if k == 3:
-        return "invalid", product_chain(rng, x0="x2 + 1")                   # a ring
+        return "invalid", product_chain(rng, n=rng.randint(3, 40), x0=rng.choice(["x2 + 1", "x1", "x3 * 2"]))   # a ring through the chain
     if k == 4:
         return "invalid", product_chain(rng, n=rng.randint(5, 9), x0="2")   # 2**(2**n) does not fit a word
     return "valid", product_chain(rng, extra="y1 = x1 + x2\n.word y1")
@@ -556,7 +578,12 @@ def gen_history(rng, maxlen):
     for j in range(n):
         r = rng.random()
         tag = "" if rng.random() < 0.5 else f"h{j}_"        # untagged names (l0.., k0..) are shared with other items and with some probes
-        if rng.random() < 0.2:
+        if rng.random() < 0.06:
+            # a ring through a product chain cut short by an injected crash, then the ring again: the second one must see an empty cycle memo
+            ring = product_chain(rng, n=rng.randint(4, 30), x0="x2 + 1")
+            hist.append({"kind": "ring-injected-crash", "files": [["h.mac", ring]], "inject": {"kind": rng.choice(["crash", "hang"]), "at": None, "frac": rng.random()}})
+            hist.append({"kind": "ring-invalid", "files": [["h.mac", ring]]})
+        elif rng.random() < 0.2:
             # ends with many entries left in try_compute.not_ready_yet; plain, or cut short by an injected crash / hang
             v, text = product_chain_variant(rng)
             item = {"kind": "product-chain-" + v, "files": [["h.mac", text]]}
@@ -676,17 +703,17 @@ def history_part(rep, rng, nprobes, nhist_per_probe, maxlen, seeds):
                 rep.count("watchdog-signal-landed-inside-enter-or-exit(state repaired, not judged)")
         want = ref[job["pi"]]
         inp = {"history": job["history"], "probe": job["probe"]}
-        dirty = [e for e in res["log"] if e["state"] != [0, 0, 0] and not e.get("async_dirty")]
+        dirty = [e for e in res["log"] if e["state"] != ZERO and not e.get("async_dirty")]
         if dirty:
-            rep.disagree("history: module-level state after an assembly is not (0, [], []) as Model.GState predicts (C18_state_restored)",
-                         {"first_dirty_item": dirty[0], "history_kinds": kinds}, model=[0, 0, 0], impl=dirty[0]["state"])
+            rep.disagree("history: module-level state after an assembly is not (depth 0, empty stacks, empty cycle memo) as Model.GState predicts (C18_state_restored, C18_cycle_memo_empty_between_runs)",
+                         {"first_dirty_item": dirty[0], "history_kinds": kinds}, model=ZERO, impl=dirty[0]["state"])
         if not same_result(res["probe_result"], want):
             n_shrunk[0] += 1
             small = shrink(job, want) if n_shrunk[0] <= 3 else job["history"]
             rep.violate("history:" + ",".join(h["kind"].split(":")[0] for h in small)[:80] + ":" + probes[job["pi"]]["what"][:40],
                         "the probe's result after this history differs from its result in a fresh process",
                         {"history": small, "probe": job["probe"], "original_history_length": len(job["history"])},
-                        expected=want, observed=res["probe_result"], state_log=[e for e in res["log"] if e["state"] != [0, 0, 0]][:3],
+                        expected=want, observed=res["probe_result"], state_log=[e for e in res["log"] if e["state"] != ZERO][:3],
                         replay="props.c18.run_history({'history':..., 'probe':...}) vs props.c18.fresh(probe)")
         if res["fingerprint_changed"]:
             rep.disagree("a module-level object of the package changed during the history (runtime complement of the usage scan)",
